@@ -449,7 +449,7 @@ func main() {
 	fam := flag.String("families", "normal,lossy,delay,crash,snapshot,timed,bigsnap,member,memberx", "scenario families")
 	replay := flag.String("replay", "", "replay the labels of this trace file instead of generating")
 	one := flag.Int("one", -1, "child mode: generate only trace number N")
-	workers := flag.Int("workers", 8, "parallel child processes")
+	workers := flag.Int("workers", 14, "parallel child processes")
 	maxTime := flag.Duration("maxtime", 20*time.Minute, "watchdog: exit 3 after this long")
 	flag.Parse()
 	go func() {
